@@ -388,6 +388,23 @@ func init() {
 				for _, r := range cand {
 					texts = append(texts, r.Text)
 				}
+				// In one list of four a rule that no candidate equals stands next to
+				// its $badfilter twin somewhere among the candidates: the two cancel
+				// out and take no part in the selection.
+				var pair []*rules.NetworkRule
+				if c.Rng.Intn(4) == 0 {
+					x := pool[c.Rng.Intn(len(pool))]
+					same := false
+					for _, cd := range cand {
+						same = same || cd.Text == x.Text
+					}
+					if !same {
+						t := x.Spec.Clone()
+						t.Badfilter = true
+						pair = []*rules.NetworkRule{x.Rule, c07Make(t).Rule}
+						c.Event("candidate_lists_with_a_cancelled_pair", 1)
+					}
+				}
 				var winners []*rules.NetworkRule
 				each := func(f func(p []int)) { permute(k, f) }
 				if k > 6 {
@@ -402,16 +419,27 @@ func init() {
 					for i, pi := range p {
 						rs[i] = cand[pi].Rule
 					}
+					given := rs
+					for _, pr := range pair {
+						at := c.Rng.Intn(len(given) + 1)
+						given = append(given[:at:at], append([]*rules.NetworkRule{pr}, given[at:]...)...)
+					}
 					for _, via := range []string{"NewMatchingResult", "GetDNSBasicRule"} {
 						var w *rules.NetworkRule
 						if via == "NewMatchingResult" {
-							w = rules.NewMatchingResult(append([]*rules.NetworkRule(nil), rs...), nil).BasicRule
+							w = rules.NewMatchingResult(append([]*rules.NetworkRule(nil), given...), nil).BasicRule
 						} else {
-							w = rules.GetDNSBasicRule(append([]*rules.NetworkRule(nil), rs...))
+							w = rules.GetDNSBasicRule(append([]*rules.NetworkRule(nil), given...))
 						}
 						c.Eval(1)
 						if w == nil {
-							c.Violation("no-winner", nil, texts, "%s selected nothing from %v", via, util.Texts(rs))
+							c.Violation("no-winner", nil, texts, "%s selected nothing from %v", via, util.Texts(given))
+
+							continue
+						}
+						if slices.Contains(pair, w) {
+							c.Violation("cancelled-rule-selected", nil, map[string]any{"order": util.Texts(given), "winner": w.RuleText, "via": via},
+								"%s over %v selected %q, which its $badfilter twin disables", via, util.Texts(given), w.RuleText)
 
 							continue
 						}
